@@ -295,11 +295,13 @@ def check(pid, tier, seed):
         # a proof obligation (or a tie to the generated Gallina) broke and the quick suites found no input on
         # which the property fails: search deeper before answering - the thorough generators of the same suites
         # (exhaustive over words / tokens where the quick ones sample).  Never runs on a tree whose proofs check.
-        if tier == "quick" and any(b.get("kind") == "proof-obligation" for b in o.broken) and not unlisted(o):
-            o.notes.append("a proof obligation broke and the quick suites found no failing input: the thorough "
+        if tier == "quick" and (any(b.get("kind") == "proof-obligation" for b in o.broken) or o.corr) and not unlisted(o):
+            o.notes.append("a proof obligation or the correspondence broke and the quick suites found no input on which the property fails: the thorough "
                            "generators of the same suites were run as the failing-input search")
             cxt = suites.Ctx(GEN, seed, "thorough")
-            for sname in PROPS[pid]["suites"]:
+            # ... and, last, random walks over the whole API (a defect may need a history the property's own
+            # suites do not build: the enabled feature set changed while a seed is held, say)
+            for sname in PROPS[pid]["suites"] + [x for x in ("seq",) if x not in PROPS[pid]["suites"]]:
                 run_suite(o, cxt, sname, label=sname + "@search")
                 if unlisted(o):
                     break
@@ -317,7 +319,7 @@ def unlisted(o):
         m = re.match(r"key=(\S+)", k)
         if m:
             keys.add(m.group(1))
-    return [d for d in o.direct + o.spec if not (d.get("key") and d.get("key") in keys)] or o.corr
+    return [d for d in o.direct + o.spec if not (d.get("key") and d.get("key") in keys)]
 
 
 def verdict(o, t0):
